@@ -358,6 +358,8 @@ def crosscheck(queries, tlimit=20):
 
 def run_tasks(tasks, jobs=None):
     jobs = jobs or C.NCPU
+    if C.DONE:
+        tasks = [t for t in tasks if t['oid'] not in C.DONE]       # second pass of a two-pass thorough run
     if not tasks:
         return []
     oids = [t['oid'] for t in tasks]
